@@ -61,13 +61,15 @@ fn fmt_case(prod0: i32, tr: &[(usize, u16, usize, i32)], k: usize, la: &[u16], w
     let t: Vec<String> = tr.iter().map(|t| format!("[{},{},{},{}]", t.0, t.1, t.2, t.3)).collect();
     format!("{{\"prod0\":[{}],\"k\":[{}],\"la\":{:?},\"transitions\":[{}],\"why\":\"{}\"}}", prod0, k, la, t.join(","), why)
 }
+/// token alphabet of the search: two ordinary user tokens and one above 255 (a packed or truncated key must not alias it)
+fn term(i: u16) -> u16 { [5u16, 6, 261, 7, 0][i as usize % 5] }
 fn search(nstates: usize, maxtr: usize, maxk: usize, nterm: u16) -> Option<String> {
     let mut keys = vec![];
-    for f in 0..nstates { for t in 0..nterm { keys.push((f, t + 5)); } }
+    for f in 0..nstates { for t in 0..nterm { keys.push((f, term(t))); } }
     let mut las: Vec<Vec<u16>> = vec![];
     for k in 0..=maxk {
         let mut cur: Vec<Vec<u16>> = vec![vec![]];
-        for _ in 0..k { let mut nx = vec![]; for s in &cur { for c in 0..nterm { let mut t = s.clone(); t.push(c + 5); nx.push(t); } } cur = nx; }
+        for _ in 0..k { let mut nx = vec![]; for s in &cur { for c in 0..nterm { let mut t = s.clone(); t.push(term(c)); nx.push(t); } } cur = nx; }
         las.extend(cur);
     }
     let mut count = 0u64;
